@@ -1139,6 +1139,15 @@ pub enum Selector {
 }
 
 impl Selector {
+    /// the same names in the same order
+    pub fn same_sequence(&self, other: &Selector) -> bool {
+        match (self, other) {
+            (Selector::All, Selector::All) => true,
+            (Selector::Some(set), Selector::Some(other_set)) => set.iter().eq(other_set.iter()),
+            _ => false,
+        }
+    }
+
     pub fn is_superset(&self, other: &Selector) -> bool {
         match self {
             Selector::All => true,
@@ -1275,8 +1284,10 @@ impl TryFrom<&Generator> for GenerateResult {
         }
         // a partition is a slice of the (builder, app) sequence that is left after applying the
         // selection: what a narrower selection configures is not contained in a wider one's slice.
+        // the sequence lists the builders in the order they were given: the same names in another
+        // order are sliced differently (`IndexSet` equality does not look at the order).
         if generator.partitioner.is_some()
-            && (res.builders != generator.builders || res.apps != generator.apps)
+            && (!res.builders.same_sequence(&generator.builders) || res.apps != generator.apps)
         {
             return Err(anyhow!("partitioned builders/apps don't match"));
         }
